@@ -74,7 +74,7 @@ func (x *exec) computeFrame(entry *State, env *Env) *frameInfo {
 				fi.allowed[n] = append(fi.allowed[n], target{ref: l.Ref})
 			case LElem:
 				n, _ := x.elemArr(l.T)
-				fi.allowed[n] = append(fi.allowed[n], target{ref: App("s-ref", l.Slice), idx: x.c.IAdd(App("s-off", l.Slice), l.Idx)})
+				fi.allowed[n] = append(fi.allowed[n], target{ref: App("s-ref", l.Slice), idx: x.c.EIdx(App("s-off", l.Slice), l.Idx)})
 			case LObj:
 				x.allFields(fi, l, t)
 			default:
